@@ -194,7 +194,7 @@ theorem g4_sub_consistent (s : Sequence) (hc : s.checkConsistency = .ok true) (p
     · split at hc
       · cases hc
       · split at hc
-        · cases hc
+        · split at hc <;> cases hc
         · rename_i chans hchans
           have m : Entry.sub sub ∈ Dict.vals s.data :=
             List.mem_map.mpr ⟨(p, .sub sub), Dict.mem_of_get?_eq_some p _ hs, rfl⟩
